@@ -26,6 +26,15 @@ def forms_for(value):
     return out
 
 
+def residual_balancing(rho, r_primal, e_primal, r_dual, e_dual):
+    """A standard adaptive-rho callback (Boyd et al. 3.4.1)."""
+    if r_primal > 10 * r_dual:
+        return rho * 2.0
+    if r_dual > 10 * r_primal:
+        return rho / 2.0
+    return rho
+
+
 def counterfactual_lambda_sum(orig):
     """The scalar branch computed the way the matrix branch does (sum over positions)."""
     def patched(lambda_parameter, block_id, row, column, block_size, num_blocks):
@@ -123,12 +132,29 @@ class C18(Prop):
         nw = case["data"]["N"] * case["args"]["window_size"]
         for t in r.sample(tasks, min(2, len(tasks))):
             forms = [fm for fm in forms_for(lam) if fm != "float"] + ["matrix_const"]
+            # the entry point's own step parameters: as recorded (rho=1, no callback), or another rho / an adaptive rho
+            kw = dict(t["kwds"])
+            step = r.choice(["recorded", "rho", "callback"])
+            if step == "rho":
+                kw["rho"] = r.choice([0.5, 2.0, 4.0])
+            elif step == "callback":
+                kw["rho_update"] = residual_balancing
+                kw["max_iterations"] = 200
+            if step != "recorded":
+                rec.probe("entry_point_step_" + step)
+                try:
+                    base_theta = np.asarray(admm.admm_optimize_theta(np.array(t["args"][0], copy=True), float(lam),
+                                                                     t["args"][2], t["args"][3], **kw).theta)
+                except Exception:  # noqa: BLE001
+                    continue
+            else:
+                base_theta = t["theta"]
             for fm in r.sample(forms, min(2, len(forms))):
                 lv = workload.make_lambda(dict(form=fm, value=lam, seed=0), nw)
                 try:
                     res = admm.admm_optimize_theta(np.array(t["args"][0], copy=True), lv, t["args"][2], t["args"][3],
-                                                   **t["kwds"])
-                    same = np.array_equal(np.asarray(res.theta), t["theta"], equal_nan=True)
+                                                   **kw)
+                    same = np.array_equal(np.asarray(res.theta), base_theta, equal_nan=True)
                 except Exception as e:  # noqa: BLE001
                     f.append(("C18:entry_form_raises", f"optimiser entry point rejects lambda as {fm}: {type(e).__name__}: {e}"))
                     continue
@@ -140,7 +166,7 @@ class C18(Prop):
                         pat.set_attr(solver, "compute_lambda_sum", counterfactual_lambda_sum(solver.compute_lambda_sum))
                         try:
                             cf = admm.admm_optimize_theta(np.array(t["args"][0], copy=True), float(lam), t["args"][2],
-                                                          t["args"][3], **t["kwds"])
+                                                          t["args"][3], **kw)
                         finally:
                             pat.restore()
                         if np.array_equal(np.asarray(cf.theta), np.asarray(res.theta), equal_nan=True):
